@@ -182,6 +182,7 @@ class Run(object):
         if not self.in_action:
             for a in entry["acts"]:
                 self.in_action = True
+                self.log("act " + a)
                 try:
                     self.api(a)
                 finally:
